@@ -14,6 +14,7 @@ mod scen_chan;
 mod scen_core;
 mod scen_cq;
 mod scen_io;
+mod scen_probe;
 mod scen_sync;
 mod util;
 
@@ -44,6 +45,7 @@ fn registry() -> Vec<ScenDef> {
     v.extend(scen_core::defs());
     v.extend(scen_cq::defs());
     v.extend(scen_io::defs());
+    v.extend(scen_probe::defs());
     v
 }
 
